@@ -58,10 +58,13 @@ class TlcResult(object):
         self.violated = None      # name of violated invariant / property, or 'deadlock' / 'temporal'
         self.error_trace = []     # list of (label, state dict)
         self.errors = []
+        self.incomplete = False
 
     @property
     def ok(self):
-        return self.rc == 0 and self.violated is None
+        # TLC can print "Error: ... StackOverflowError" for one state, stop exploring and still exit 0:
+        # any Error line, or states left on the queue, makes the run not ok
+        return self.rc == 0 and self.violated is None and not self.errors and not self.incomplete
 
 
 _RE_STATES = re.compile(r"(\d+) states generated, (\d+) distinct states found")
@@ -109,7 +112,7 @@ def run(module, cfg, workers=16, cwd=None, env=None, dump=None, dump_dot=None,
         cfg = os.path.join(os.path.dirname(root), cfg)
     meta = scratch_dir("tlcmeta")
     lib = os.pathsep.join(SPEC_DIRS + ([cwd] if cwd else []))
-    cmd = ["java", "-XX:+UseParallelGC", "-Xmx" + heap, "-DTLA-Library=" + lib]
+    cmd = ["java", "-XX:+UseParallelGC", "-Xmx" + heap, "-Xss32m", "-DTLA-Library=" + lib]
     if dfs:
         cmd.append("-Dtlc2.tool.queue.IStateQueue=StateDeque")
     cmd += list(jvm)
@@ -181,6 +184,11 @@ def run(module, cfg, workers=16, cwd=None, env=None, dump=None, dump_dot=None,
     elif "Error: Assumption" in r.out:
         r.violated = "assumption"
     r.errors = [ln for ln in r.out.splitlines() if ln.startswith("Error:")]
+    ms = re.findall(r"(\d+) states? left on queue", r.out)
+    if not simulate and (not ms or int(ms[-1]) != 0) and r.rc == 0:
+        r.incomplete = True
+    if r.errors and r.violated is None:
+        r.violated = "tlc-error"
     if r.violated:
         r.error_trace = _error_trace(r.out)
     r.prints = split_prints(r.out)
